@@ -294,9 +294,24 @@ def take_over_clipped(case):
     return e is not None and any(n[0] == 'take' and has_clipped_leaf(n) for n in subtrees(e))
 
 
+STATIC_KEEPING = {'transpose': ('none', 'ct.'), 'reshape': ('ct.', 'cl.'), 'flatten': ('',), 'broadcast_to': ('ct.', 'cl.'), 'negative': ('',),
+                  'expand_dims': ('cts.',), 'squeeze': ('',), 'sum': ('cts.', 'ctt.'), 'tile': ('ct.',), 'add': ('',), 'concatenate': ('cts.', 'none')}
+
+
+def statically_shaped(n):
+    """the shape TYPE of the subtree is constant or clipped (approximation from the expression: constant/clipped leaves
+    through operations with compile-time arguments that keep that knowledge)"""
+    if n[0] == 'leaf':
+        return n[1] in ('cs', 'fx') + CLIPPED
+    keep = STATIC_KEEPING.get(n[0])
+    if keep is None or not any(n[2].startswith(k) if k else True for k in keep):
+        return False
+    return all(statically_shaped(k) for k in n[1])
+
+
 def broadcast_clipped_with_runtime(case):
-    """a broadcasting binary view (add / where) with one operand over a clipped-shape leaf and the other over a leaf whose
-    extents are only known at run time"""
+    """a broadcasting binary view (add / where) with one operand over a clipped-shape source and the other operand's extents
+    only known at run time (a run-time-shaped leaf, or a view whose shape type is not constant/clipped)"""
     e = _expr(case)
     if e is None:
         return False
@@ -304,7 +319,7 @@ def broadcast_clipped_with_runtime(case):
         if n[0] in ('add', 'where') and len(n[1]) == 2:
             a, b = n[1]
             for x, y in ((a, b), (b, a)):
-                if has_clipped_leaf(x) and any(l[1] in RUNTIME_SHAPED for l in leaves_of(y)):
+                if has_clipped_leaf(x) and not statically_shaped(y):
                     return True
     return False
 
